@@ -509,6 +509,10 @@ impl SequenceStreamMerger {
                 name: "timestamp".to_string(),
                 logical_type: "Timestamp".to_string(),
             },
+            ColumnSpec {
+                name: "event_id".to_string(),
+                logical_type: "Integer".to_string(),
+            },
         ];
 
         // Add payload fields of all events in first-seen order: the event types of a sequence
